@@ -290,6 +290,10 @@ func (w *c08World) violateNode(n *c08Node, sig, detail string) {
 }
 
 func (w *c08World) violate(sig, detail string) {
+	if w.cfg.C09 && strings.HasPrefix(sig, "C08:") {
+		// the filesystem-level oracles of the shared world, firing inside a C09 run
+		sig = "C09:fs:" + sig[4:]
+	}
 	if w.viol == nil {
 		w.viol = &c08Viol{sig: sig, detail: detail, opIdx: len(w.ops) - 1}
 	}
@@ -337,6 +341,12 @@ func (w *c08World) stop(why string) {
 
 // readFileVia reads a whole file through a fresh read-only handle.
 func c08ReadAll(fs FileSystem, path string, chunk int) ([]byte, error) {
+	return c08ReadAllMax(fs, path, chunk, 1<<30)
+}
+
+// c08ReadAllMax gives up once more than max bytes have been returned (the
+// caller knows how long the file can be at most).
+func c08ReadAllMax(fs FileSystem, path string, chunk, max int) ([]byte, error) {
 	f, err := fs.OpenFile(path, os.O_RDONLY, 0)
 	if err != nil {
 		return nil, err
@@ -355,6 +365,9 @@ func c08ReadAll(fs FileSystem, path string, chunk int) ([]byte, error) {
 		}
 		if n == 0 {
 			return out, fmt.Errorf("Read returned 0, nil before EOF at offset %d", len(out))
+		}
+		if len(out) > max {
+			return out, fmt.Errorf("file is longer than %d bytes", max)
 		}
 	}
 	return out, fmt.Errorf("no EOF")
@@ -460,7 +473,7 @@ func (w *c08World) compareTree(fs CollectionFileSystem, chunk int) (kind, what s
 			if fi.IsDir() || fi.Size() != int64(len(k.data)) {
 				return tagged(k, "size"), fmt.Sprintf("Stat(%q) reports dir=%v size=%d, model says file of %d bytes", kp, fi.IsDir(), fi.Size(), len(k.data))
 			}
-			data, err := c08ReadAll(fs, kp, chunk)
+			data, err := c08ReadAllMax(fs, kp, chunk, len(k.data)+64)
 			if err != nil {
 				return tagged(k, "read-failed"), fmt.Sprintf("reading %q: %v (after %d bytes, model has %d)", kp, err, len(data), len(k.data))
 			}
@@ -482,7 +495,7 @@ func (w *c08World) compareTree(fs CollectionFileSystem, chunk int) (kind, what s
 
 func (w *c08World) quiesce() {
 	w.keep.setGate(false)
-	if !c08WaitGoroutines(w.baseG, 5*time.Second) {
+	if !c08WaitGoroutines(w.baseG, 60*time.Second) {
 		w.cnt["quiesce_timeout"]++
 	}
 	w.keep.setGate(w.cfg.Gate)
@@ -744,6 +757,9 @@ func (w *c08World) apply(op c08Op) {
 func (w *c08World) cmpLive(op *c08Op, when string) {
 	w.cnt["tree_compares"]++
 	chunk := 1 + (len(w.ops)*7)%(2*w.cfg.BS+3)
+	if w.cfg.BS > 1<<16 {
+		chunk = 1<<20 + 7 // production block size: do not read 128 MiB in tiny pieces
+	}
 	if kind, what := w.compareTree(w.fs, chunk); what != "" {
 		w.violate("C08:tree:"+kind, fmt.Sprintf("whole-tree comparison (%s): %s", when, what))
 	}
